@@ -80,9 +80,9 @@ func NewWriterLevel(w io.Writer, level, wc int) (*Writer, error) {
 	go func() {
 		defer bg.wg.Done()
 		for qw := range bg.queue {
-			if !writeOK(bg, <-qw.flush) {
-				break
-			}
+			// Keep draining the queue after a failure so that
+			// compressors and pending counts are released.
+			writeOK(bg, <-qw.flush)
 		}
 	}()
 
@@ -91,9 +91,17 @@ func NewWriterLevel(w io.Writer, level, wc int) (*Writer, error) {
 
 func writeOK(bg *Writer, c *compressor) bool {
 	defer func() { bg.waiting <- c }()
+	defer bg.qwg.Done()
 
 	if c.err != nil {
 		bg.setErr(c.err)
+		return false
+	}
+	if bg.Error() != nil {
+		// A previous write failed; discard the block but
+		// release the compressor and the pending count.
+		c.buf.Reset()
+		c.next = 0
 		return false
 	}
 	if c.buf.Len() == 0 {
@@ -101,7 +109,6 @@ func writeOK(bg *Writer, c *compressor) bool {
 	}
 
 	_, err := io.Copy(bg.w, &c.buf)
-	bg.qwg.Done()
 	if err != nil {
 		bg.setErr(err)
 		return false
